@@ -32,7 +32,12 @@ class P(Prop):
         ("TracklibVerif.Props.C19", "TV.C19.conservation", "the scatter never fails; cell (i,j) holds exactly the values of the observations whose getCell is (j,i); sizes sum to the number of observations, any per-value weight (e.g. non-NaN) is conserved"),
         ("TracklibVerif.Props.C19", "TV.C19.aggregate_spec", "co_count/co_sum/co_min/co_max/co_avg/co_median = that aggregate over the non-NaN values; no non-NaN value -> 0 for count and sum, no-data otherwise"),
         ("TracklibVerif.Props.C19", "TV.C19.aggregates_entry", "computeAggregates writes, in (line i, column j), the operator's value on that cell with NaN replaced by the no-data value"),
-        ("TracklibVerif.Props.C19", "TV.C19.summarize_spec", "end to end: on every non-empty collection (a north-south / east-west line of observations or a single one included: one column / one row) summarize never fails, builds a well-formed grid covering all observations and returns computeAggregates of cells holding exactly the located values"),
+        ("TracklibVerif.Props.C19", "TV.C19.session_geometry", "no call on a raster (addAFMap, addCollectionToRaster, computeAggregates, setNoDataValue; failing calls included) changes the grid geometry; one outcome per call"),
+        ("TracklibVerif.Props.C19", "TV.C19.add_collection_spec", "addCollectionToRaster REPLACES the values: on a raster in any state, for a collection inside the extent whose tracks have every feature of the bands, it does not raise, leaves bands / geometry / no-data untouched, keeps values for exactly the features of the bands, and cell (i,j) of a feature holds exactly that feature's values of the observations of THIS collection whose getCell is (j,i)"),
+        ("TracklibVerif.Props.C19", "TV.C19.obs_cover", "the observations scattered for a feature a track has are all its positions, in order"),
+        ("TracklibVerif.Props.C19", "TV.C19.add_collection_missing_feature", "a track lacking a feature of the bands: AnalyticalFeatureError, and every cell of every feature is left empty (the earlier collection's values are gone)"),
+        ("TracklibVerif.Props.C19", "TV.C19.session_spec", "invariant over call sequences: after ANY calls, then a well-formed addCollectionToRaster(T), then any calls other than addCollectionToRaster (bands added later, ...), then computeAggregates with every band <feature>#<operator>: neither raises, and EVERY band, whatever it held before, holds its operator over exactly the values of the observations of T located in each cell (NaN -> NO_DATA_VALUE)"),
+        ("TracklibVerif.Props.C19", "TV.C19.summarize_spec", "one-shot corollary, end to end: on every collection of non-empty tracks (a north-south / east-west line of observations or a single one included: one column / one row), distinct (feature, operator) pairs, every track having every feature, summarize never fails nor returns 0, builds a well-formed grid covering all observations with one band per pair in call order, each band = its operator over exactly the located values"),
         ("TracklibVerif.Props.C19", "TV.C19.rat_floor_ceil", "the driver's Rat.floor / Rat.ceil are the Int.floor / Int.ceil of the theorems"),
     ]
     partial = []
@@ -368,13 +373,17 @@ class P(Prop):
             return ["%s %s %s" % (head, e(p[0]), e(p[1])) for p in case["pts"]]
         if case["kind"] == "op":
             return ["C19.agg %s %s %s" % (m, tok_list(e(v) for v in case["vals"]), "".join(OPCH[o] for o in case["order"]))]
-        obs = self.all_obs(case)
-        xs, ys = tok_list(e(o[0]) for o in obs), tok_list(e(o[1]) for o in obs)
-        tail = "%s %s %s" % (e(case["res"][0]), e(case["res"][1]), e(case["margin"]))
-        # the aggregates are pure functions of the cell contents: one model request per feature, its operators in call order
-        return ["C19.sum %s %s %s %s %s %s" % (m, xs, ys, tok_list(e(v) for v in self.fvals(case, f)), tail,
-                                                "".join(OPCH[o] for ff, o in self.aggs(case) if ff == f))
-                for f in self.feats(case)]
+        # summarize() with all its (feature, operator) pairs, in call order, is inside the model (Model/RasterSession.lean)
+        return self.requests_session(self.sum_as_session(case))
+
+    def sum_as_session(self, case):
+        feats = self.feats(case)
+        tracks = [{"uid": i + 1, "pts": [[o[0], o[1]] for o in tr],
+                   "f": {n: [o[idx] for o in tr] for idx, n in ((2, "v"), (3, "w")) if n in feats}}
+                  for i, tr in enumerate(case["tracks"])]
+        ag = self.aggs(case)
+        op = ["summarize", 0, [f for f, _ in ag], [o for _, o in ag], case["res"], case["margin"], "list"]
+        return {"kind": "session", "mode": case["mode"], "colls": [tracks], "ops": [op] * case.get("runs", 1)}
 
     def parse_cell(self, w):
         if w == "none":
@@ -400,22 +409,14 @@ class P(Prop):
             return {"geo": geo, "cells": cells}
         if case["kind"] == "op":
             return {"res": [d(w) for w in untok(replies[0])], "after": [NAN if v == "nan" else v for v in case["vals"]]}
-        if replies[0] == "err:raised":
-            return {"err": "raised"}
-        w = replies[0].split(" ")
-        geo = [d(w[0]), d(w[1]), d(w[2]), d(w[3]), int(w[4]), int(w[5])]
-        cells = [self.parse_cell(c) for c in untok(w[6])]
-        grids = {}
-        for f, r in zip(self.feats(case), replies):
-            wf = r.split(" ")
-            if wf[:7] != w[:7]:
-                raise ValueError("geometry / cells differ between the per-feature requests")
-            ops = [o for ff, o in self.aggs(case) if ff == f]
-            for o, g in zip(ops, untok(wf[7], "|")):
-                grids[f + "#" + o] = [[d(v) for v in untok(row)] for row in untok(g, ";")]
-        out = {"geo": geo, "cells": cells, "grids": grids}
-        if case.get("runs", 1) > 1:
-            out["again"] = {"geo": geo, "cells": cells, "grids": grids}
+        outs = []
+        for st in self.decode_session(self.sum_as_session(case), replies)["steps"]:
+            if st["out"] != "ok" or st["snap"] is None:
+                return {"err": "raised"}
+            outs.append({"geo": st["snap"]["geo"], "cells": st["cells"], "grids": {n: g for n, g in st["snap"]["bands"]}})
+        out = outs[0]
+        if len(outs) > 1:
+            out["again"] = outs[1]
         return out
 
     def compare(self, case, impl_out, model_out):
